@@ -168,22 +168,23 @@ class streaming_stub:
 def build_streaming(kind, labels, cfg, scene):
     """Chunk generation (real functions) -> in-memory store -> real *StreamingDataset."""
     dc = OmegaConf.create({"preprocessing": {"is_rgb": cfg["is_rgb"], "max_height": cfg["max_hw"][0], "max_width": cfg["max_hw"][1]},
-                           "user_instances_only": True})
+                           "user_instances_only": cfg.get("user_instances_only", True)})
+    uio = cfg.get("user_instances_only", True)
     max_inst = get_max_instances(labels)
     store = []
     inputs = [(lf, labels.videos.index(lf.video)) for lf in labels]
     for x in inputs:
         if kind == "single":
-            store.append(gdc.single_instance_data_chunks(x, data_config=dc, max_hw=tuple(cfg["max_hw"]), user_instances_only=True, scale=cfg["scale"]))
+            store.append(gdc.single_instance_data_chunks(x, data_config=dc, max_hw=tuple(cfg["max_hw"]), user_instances_only=uio, scale=cfg["scale"]))
         elif kind == "centroid":
             store.append(gdc.centroid_data_chunks(x, data_config=dc, max_instances=max_inst, anchor_ind=cfg["anchor"], max_hw=tuple(cfg["max_hw"]),
-                                                  user_instances_only=True, scale=cfg["scale"]))
+                                                  user_instances_only=uio, scale=cfg["scale"]))
         elif kind == "bottomup":
-            store.append(gdc.bottomup_data_chunks(x, data_config=dc, max_instances=max_inst, max_hw=tuple(cfg["max_hw"]), user_instances_only=True,
+            store.append(gdc.bottomup_data_chunks(x, data_config=dc, max_instances=max_inst, max_hw=tuple(cfg["max_hw"]), user_instances_only=uio,
                                                   scale=cfg["scale"]))
         else:
             for res in gdc.centered_instance_data_chunks(x, data_config=dc, max_instances=max_inst, crop_size=tuple(cfg["crop_hw"]),
-                                                         anchor_ind=cfg["anchor"], max_hw=tuple(cfg["max_hw"]), user_instances_only=True, scale=cfg["scale"]):
+                                                         anchor_ind=cfg["anchor"], max_hw=tuple(cfg["max_hw"]), user_instances_only=uio, scale=cfg["scale"]):
                 store.append(res)
     cm = OmegaConf.create({"sigma": cfg["sigma"], "output_stride": cfg["output_stride"], "anchor_part": cfg["anchor"]})
     with streaming_stub(store):
